@@ -837,6 +837,9 @@ func genProgram(rng *rand.Rand, name string) *Program {
 		if rng.Intn(4) == 0 {
 			code = append(code, Instr{Op: "MNEXT", A: "next", B: "11"}, Instr{Op: "MPREV", A: "prev", B: "22"})
 		}
+		if !haveSink && nm > 0 && p.OutputSize > 0 && rng.Intn(3) == 0 {
+			code = append(code, Instr{Op: "MSINK"}) // the menu is this node's sink (only one sink per page)
+		}
 		code = append(code, Instr{Op: "HALT"})
 		if kind == 2 && i > 0 {
 			// graceful end node: nothing after HALT
